@@ -784,8 +784,9 @@ fn rejections(ctx: &mut Ctx) {
     }
 }
 
-/// the known defect classes (DESIGN.md F8) and their neighbours, through whole records and through the leaves
-fn known_classes(ctx: &mut Ctx) {
+/// the inputs of the eight defect classes once recorded for C19 (all fixed in /repo) and their
+/// neighbours, through whole records; any of them failing again is a plain spec failure
+fn former_defects(ctx: &mut Ctx) {
     let e150: String = "é".repeat(150);
     let e75: String = "é".repeat(75);
     let mix: String = format!("{}{}", "a".repeat(149), "é");
@@ -863,6 +864,31 @@ fn leaf_sweeps(ctx: &mut Ctx) {
                 }
             }
         }
+    }
+    // the byte-position checks of TDate (byte 10 = separator, bytes 17..19 = "60") and the first-byte
+    // check of FullDate: every prefix of valid strings, a non-ASCII scalar at every position, "60" and
+    // separators at every position
+    for base in ["2020-01-01T12:00:00Z", "2016-12-31T23:59:60Z", "2020-01-01T12:00:59.60+01:00", "2020-06-30 23:59:59-00:60", "2020-01-01"] {
+        for n in 0..=base.len() {
+            let p = &base[..n];
+            leaf_case(ctx, "leaf_tdate_prefix", MDL, "TDate", &json!(p));
+            leaf_case(ctx, "leaf_tdate_prefix", MDL, "TDateOrFullDate", &json!(p));
+            leaf_case(ctx, "leaf_tdate_prefix", MDL, "FullDate", &json!(p));
+            for ins in ["\u{e9}", "60", "T", " ", "\u{2028}", "+", "-"] {
+                let m = format!("{}{}{}", &base[..n], ins, &base[n..]);
+                leaf_case(ctx, "leaf_tdate_insert", MDL, "TDate", &json!(m));
+                leaf_case(ctx, "leaf_tdate_insert", MDL, "TDateOrFullDate", &json!(m));
+                if n < base.len() {
+                    let r = format!("{}{}{}", &base[..n], ins, &base[n + 1..]);
+                    leaf_case(ctx, "leaf_tdate_replace", MDL, "TDate", &json!(r));
+                    leaf_case(ctx, "leaf_tdate_replace", MDL, "FullDate", &json!(r));
+                }
+            }
+        }
+    }
+    for s in ["2016-12-31T23:59:60.5Z", "2017-01-01T00:59:60+01:00", "2016-12-31t23:59:60z", "2016-12-31 23:59:60Z", "2016-12-31T23:60:00Z", "2016-12-31T60:00:00Z",
+              "6060-06-06T06:06:06Z", "2060-10-10T10:60:10Z", "2020-01-01T12:00:06.060Z", "2020-01-01T12:00:00+06:00", "2020-01-01T12:00:00-00:60"] {
+        leaf_case(ctx, "leaf_tdate_sixty", MDL, "TDate", &json!(s));
     }
     // Latin1: byte / character length boundaries and every scalar up to U+017F
     for n in [0usize, 1, 74, 75, 76, 149, 150, 151, 300] {
@@ -953,7 +979,7 @@ fn field_identifiers(ctx: &mut Ctx) {
 pub fn run(ctx: &mut Ctx) {
     field_identifiers(ctx);
     tables(ctx);
-    known_classes(ctx);
+    former_defects(ctx);
     rejections(ctx);
     records(ctx);
     enum_codes_in_records(ctx);
